@@ -89,6 +89,34 @@ func addTimeIntrinsics(t map[string]intrinsic) {
 		}
 		return c.Add(c.Mul(ds, c.Const(1_000_000_000, 64)), c.Sub(tn, un))
 	}
+	// Time.Add for durations of whole seconds written as x * 1e9 (or constants): the seconds are added
+	// to the instant without the division / remainder by 1e9 of the real code. Other shapes run the real code.
+	t["(time.Time).Add"] = func(m *Machine, fr *frame, a []Value) Value {
+		c := m.ctx
+		tt := a[0].(Struct)
+		d := a[1].(*sym.Term)
+		wall, ext := tt[0].(*sym.Term), tt[1].(*sym.Term)
+		if wall.IsConst() && wall.Val>>63 != 0 {
+			return m.callRealBody(fr, a)
+		}
+		var secs *sym.Term
+		switch {
+		case d.IsConst() && d.Int(true)%1_000_000_000 == 0:
+			secs = c.Const(uint64(d.Int(true)/1_000_000_000), 64)
+		case d.Op == sym.OMul && d.Args[1].IsConst() && d.Args[1].Val == 1_000_000_000:
+			secs = d.Args[0]
+		case d.Op == sym.OMul && d.Args[0].IsConst() && d.Args[0].Val == 1_000_000_000:
+			secs = d.Args[1]
+		default:
+			return m.callRealBody(fr, a)
+		}
+		// the product must not have wrapped: |secs| < 2^33
+		lim := c.Const(1<<33, 64)
+		if !m.branch(c.And(c.Slt(c.Neg(lim), secs), c.Slt(secs, lim))) {
+			m.unsupported("time.Add: duration outside ±2^33 s")
+		}
+		return Struct{wall, c.Add(ext, secs), tt[2]}
+	}
 	t["time.Sleep"] = func(m *Machine, fr *frame, a []Value) Value { return nil }
 	t["time.runtimeNano"] = func(m *Machine, fr *frame, a []Value) Value { return m.mkInt(1, 64) }
 	t["(*time.Location).get"] = func(m *Machine, fr *frame, a []Value) Value { return a[0] }
